@@ -71,8 +71,12 @@ func (c06) Gen(tier string, seed int64, emit0 func([]Ev)) {
 				continue
 			}
 			var before [][]byte
-			if r.Intn(3) == 0 {
+			switch r.Intn(6) {
+			case 0, 1:
 				before = append(before, otherSection(r, r.Intn(20)))
+			case 2:
+				// the program map section of another program carried on the same PID in front of it
+				before = append(before, pmtSection(randPMT(r, 1+r.Intn(3), false)))
 			}
 			bev := [][]int{}
 			for _, b := range before {
